@@ -34,7 +34,7 @@ import (
 // real TLS handshake. Client side: the real imapclient.NewStartTLS against a scripted peer that
 // appends plaintext responses to its tagged OK and then performs (or not) a real TLS handshake.
 // No observation depends on a sleep: every phase ends on EOF, on a handshake result or on a tagged
-// reply; a 20 s watchdog only reports "timeout" (never expected).
+// reply; a 90 s watchdog only reports "timeout" (never expected).
 
 func init() {
 	props["C17"] = genC17
@@ -437,7 +437,7 @@ func c17RunSrv(c c17Srv) caseLine {
 	if c.tls {
 		tlsCfg = c17ServerTLS()
 	}
-	srv := imapserver.New(&imapserver.Options{
+	opts := &imapserver.Options{
 		NewSession: func(conn *imapserver.Conn) (imapserver.Session, *imapserver.GreetingData, error) {
 			s := newRecSession()
 			s.conn = conn
@@ -455,7 +455,9 @@ func c17RunSrv(c c17Srv) caseLine {
 		InsecureAuth: c.insecure,
 		TLSConfig:    tlsCfg,
 		Logger:       discardLogger{},
-	})
+	}
+	srv := imapserver.New(opts)
+	scrambleOptions(opts)
 	ln := newMemListener()
 	go srv.Serve(ln)
 	defer srv.Close()
@@ -493,7 +495,7 @@ func c17RunSrv(c c17Srv) caseLine {
 			}
 		}
 	}
-	finished := c17Watchdog(20*time.Second, func() {
+	finished := c17Watchdog(90*time.Second, func() {
 		if l, ok := rd.readLine(); ok {
 			f := strings.Fields(l)
 			if len(f) >= 2 && f[0] == "*" {
@@ -856,7 +858,7 @@ func c17RunCli(c c17Cli) caseLine {
 				hsDone <- false
 				return
 			}
-			conn.SetDeadline(time.Now().Add(25 * time.Second))
+			conn.SetDeadline(time.Now().Add(80 * time.Second))
 			accMu.Lock()
 			acc = conn
 			accMu.Unlock()
@@ -880,7 +882,7 @@ func c17RunCli(c c17Cli) caseLine {
 	}
 
 	result, capsS, noop, end := "error", "-", "-", "ok"
-	finished := c17Watchdog(20*time.Second, func() {
+	finished := c17Watchdog(90*time.Second, func() {
 		client, err := construct()
 		if err != nil {
 			<-peerDone
@@ -907,7 +909,7 @@ func c17RunCli(c c17Cli) caseLine {
 		// Close waits for the reader goroutine, i.e. for everything the client is going to deliver.
 		// (A reader stuck on a half-registered command, the repaired C13 defect, would be reported as
 		// hang13 and the case judged on what was observed.)
-		if !c17Watchdog(3*time.Second, func() { client.Close() }) {
+		if !c17Watchdog(30*time.Second, func() { client.Close() }) {
 			end = "hang13"
 			abort()
 		}
